@@ -52,6 +52,7 @@ var (
 		GoStmts         int      `json:"go_statements"`
 		GoRewritten     int      `json:"go_statements_rewritten"`
 		WGRewritten     int      `json:"waitgroup_calls_rewritten"`
+		CondRewritten   int      `json:"cond_calls_rewritten"`
 		ChanRewritten   int      `json:"channel_ops_rewritten"`
 		SelectRewritten int      `json:"selects_rewritten"`
 		Unsupported     []string `json:"unsupported_constructs,omitempty"`
@@ -482,8 +483,13 @@ func instrumentFile(p *packages.Package, f *ast.File, src []byte, root string) [
 				edits = append(edits, edit{off: a, end: off(x.Lparen) + 1, text: txt})
 				summary.WGRewritten++
 			case fn.Name() == "Unlock" || fn.Name() == "RUnlock" || fn.Name() == "TryLock" || fn.Name() == "TryRLock":
-			case rname == "Cond" && fn.Name() == "Wait":
-				summary.Unsupported = append(summary.Unsupported, "sync.Cond.Wait@"+rel(x.Pos()))
+			case rname == "Cond" && (fn.Name() == "Wait" || fn.Name() == "Signal" || fn.Name() == "Broadcast"):
+				if inConsumed(a, b) || len(x.Args) != 0 {
+					summary.Unsupported = append(summary.Unsupported, "sync.Cond."+fn.Name()+"@"+rel(x.Pos()))
+					break
+				}
+				edits = append(edits, edit{off: a, end: b, text: fmt.Sprintf("%s.Cond%s(%s)", rtName, fn.Name(), recvPointer(xsrc, p.TypesInfo.TypeOf(sel.X), s))})
+				summary.CondRewritten++
 			default:
 				summary.SyncOtherUses = append(summary.SyncOtherUses, fmt.Sprintf("%s.%s@%s", rname, fn.Name(), rel(x.Pos())))
 			}
